@@ -287,6 +287,24 @@ def make_sum(summand_fn, lo, hi, obligations=None, rewriter=None, guard_simplifi
                     if r is False:
                         dead = True
                         break
+                    if z3.is_not(cj) and z3.is_and(cj.arg(0)):
+                        # not (x and y) where the range entails x: not y
+                        inner = []
+                        r2 = None
+                        for x in cj.arg(0).children():
+                            rx = guard_simplifier(x)
+                            if rx is True:
+                                continue
+                            if rx is False:
+                                r2 = True
+                                break
+                            inner.append(x)
+                        if r2 is True:
+                            continue
+                        if not inner:
+                            dead = True
+                            break
+                        cj = z3.Not(z3.And(inner) if len(inner) > 1 else inner[0])
                     keep.append(cj)
                 if dead:
                     continue
